@@ -66,6 +66,10 @@ theorem compareAofId_antisymm {a b : AofId} (ha : a.WF) (hb : b.WF) : compareAof
 /-- both positions lie within one comparison window of each other -/
 def InWindow (a b : AofId) : Prop := a.aid < b.aid + WINDOW ∧ b.aid < a.aid + WINDOW
 
+instance (a b : AofId) : Decidable (InWindow a b) := by unfold InWindow; exact inferInstance
+
+instance (a : AofId) : Decidable a.WF := by unfold AofId.WF; exact inferInstance
+
 /-- (aid, time) lexicographically greater -/
 def LexGt (a b : AofId) : Prop := a.aid > b.aid ∨ (a.aid = b.aid ∧ a.time > b.time)
 
